@@ -53,6 +53,7 @@ theorem rekey_other (old new p : PStr) (h : (old ++ ['/']).isPrefixOf p = false)
     becomes `s/d`, not `s/s`) -/
 example : subMovedEvents ['s'] ['d'] [.dir ['d'] [.file ['d']]] =
     [⟨true, ['s', '/', 'd'], ['d', '/', 'd']⟩, ⟨false, ['s', '/', 'd', '/', 'd'], ['d', '/', 'd', '/', 'd']⟩] := by
-  decide
+  simp [subMovedEvents, walkEvents, walkBelow, mkMoved, rewritePrefix, pjoin, List.filter, Node.isDir,
+    Node.name]
 
 end WD.C14
